@@ -3,6 +3,8 @@ import TantivyModel.Proofs.DocSet.Default
 import TantivyModel.Proofs.DocSet.ReqOpt
 import TantivyModel.Proofs.DocSet.Exclude
 import TantivyModel.Proofs.DocSet.SimpleUnion
+import TantivyModel.Proofs.DocSet.Intersection
+import TantivyModel.Proofs.DocSet.BufferedUnion
 import TantivyModel.Model.DocSet.Tree
 /-!
 # C13 — every DocSet is one sorted sequence under any mix of advance and seek
@@ -153,6 +155,81 @@ theorem C13_simple_union_end_sticky (hA : Lawful A VA WA) (s : SimpleUnion.State
     implRun (SimpleUnion.ds A) s prog = specRun ⟨[], none⟩ prog :=
   (C13_end_sticky _ _ _ (SimpleUnion.lawful hA) prog s hV hlegal).1
 
+/-- Intersection (left / right / any number of others): the leap-frog `advance` (left `seek`, the
+others `seek_danger`, candidates taken from the returned lower bounds), `seek` through
+`go_to_first_doc`, `seek_danger` with the intersection's own danger zone, over ANY lawful children —
+which may sit in their danger zones between iterations and after the end was reached.
+`_partial`: `count_including_deleted` is the sparse (advance-driven) branch; the dense block-counting
+branch is tied by the harness only, and provably does not end in a valid state
+(`C13_intersection_dense_count_end_counterexample`).
+FULL STATEMENT: the same with `Inter.ds A` (both count branches). -/
+theorem C13_intersection_lawful_partial (hA : Lawful A VA WA) :
+    Lawful (Inter.dsSparse A) (Inter.V VA WA) (Inter.W VA WA) := Inter.lawful_sparse hA
+
+/-- the abstraction: documents common to all children -/
+theorem C13_intersection_abstraction (ll lr : List Nat) (los : List (List Nat)) (x : Nat) :
+    x ∈ Inter.Common ll lr los ↔ x ∈ ll ∧ x ∈ lr ∧ ∀ lo ∈ los, x ∈ lo := Inter.mem_common
+
+theorem C13_intersection_program_equiv_partial (hA : Lawful A VA WA) (s : Inter.State σ)
+    (l : List Nat) (hV : Inter.V VA WA s l) (prog : List Op)
+    (hlegal : legalProg ⟨l, none⟩ prog = true) :
+    implRun (Inter.dsSparse A) s prog = specRun ⟨l, none⟩ prog :=
+  C13_program_equiv _ _ _ (Inter.lawful_sparse hA) prog s l hV hlegal
+
+theorem C13_intersection_end_sticky_partial (hA : Lawful A VA WA) (s : Inter.State σ)
+    (hV : Inter.V VA WA s []) (prog : List Op) (hlegal : legalProg ⟨[], none⟩ prog = true) :
+    implRun (Inter.dsSparse A) s prog = specRun ⟨[], none⟩ prog :=
+  (C13_end_sticky _ _ _ (Inter.lawful_sparse hA) prog s hV hlegal).1
+
+/-- the order of the children does not matter for the set that is enumerated: swapping left and
+right, or permuting the others, gives the same common documents (with
+`C13_intersection_lawful_partial`: the same observations under every legal program) -/
+theorem C13_intersection_order_irrelevant (ll lr : List Nat) (los los' : List (List Nat))
+    (hl : Sorted ll) (hr : Sorted lr) (hperm : ∀ lo, lo ∈ los ↔ lo ∈ los') :
+    Inter.Common ll lr los = Inter.Common lr ll los
+      ∧ Inter.Common ll lr los = Inter.Common ll lr los' := by
+  constructor
+  · apply Sorted.ext (Inter.common_sorted hl) (Inter.common_sorted hr)
+    intro x
+    rw [Inter.mem_common, Inter.mem_common]
+    constructor
+    · rintro ⟨a, b, c⟩; exact ⟨b, a, c⟩
+    · rintro ⟨a, b, c⟩; exact ⟨b, a, c⟩
+  · apply Sorted.ext (Inter.common_sorted hl) (Inter.common_sorted hl)
+    intro x
+    rw [Inter.mem_common, Inter.mem_common]
+    constructor
+    · rintro ⟨a, b, c⟩; exact ⟨a, b, fun lo hlo => c lo ((hperm lo).mpr hlo)⟩
+    · rintro ⟨a, b, c⟩; exact ⟨a, b, fun lo hlo => c lo ((hperm lo).mp hlo)⟩
+
+/-- BufferedUnionScorer, parametric in the horizon `H` (any positive multiple of 64): the invariant
+"the window holds exactly the not yet consumed members of the children inside
+[window_start, window_start + H), every child is positioned at or beyond the horizon" is preserved by
+`advance` (pop the smallest buffered delta; on an empty window `refill` moves the window to the
+smallest child document and drains every child below the new horizon), and the abstraction commutes:
+the remaining sequence loses exactly its head. Children abstract (lawful, `score` preserving their
+abstraction). `_partial`: `advance`/`doc` only — `seek`, `seek_danger`, `fill_buffer`,
+`count_including_deleted` and `build` are open (plan in the comment below); findings 5 and 9 live
+in `seek_danger`/`seek`, finding 3 in `count`. -/
+theorem C13_union_advance_refines_partial (hA : Lawful A VA WA)
+    (hscore : ∀ {c l}, VA c l → VA (A.score c).2 l) (H : Nat) (hH : 64 ∣ H) (hH0 : 0 < H)
+    (s : BUnion.State σ) (l : List Nat) (hV : BUnion.V VA H s l) :
+    BUnion.V VA H (BUnion.advance A H s) (Spec.advance l)
+      ∧ (BUnion.advance A H s).doc = Spec.doc (Spec.advance l) :=
+  ⟨BUnion.advance_law hA hscore hH hH0 hV,
+    (BUnion.core0 hA hscore hH hH0).doc_eq (BUnion.advance_law hA hscore hH hH0 hV)⟩
+
+theorem C13_union_advance_program_equiv_partial (hA : Lawful A VA WA)
+    (hscore : ∀ {c l}, VA c l → VA (A.score c).2 l) (H : Nat) (hH : 64 ∣ H) (hH0 : 0 < H)
+    (fx : Fix) (s : BUnion.State σ) (l : List Nat) (hV : BUnion.V VA H s l) (prog : List Op)
+    (hp : advOnly prog = true) :
+    implRun (BUnion.ds A H fx) s prog = specRun ⟨l, none⟩ prog :=
+  core0_program_equiv (BUnion.ds A H fx) (BUnion.V VA H) (BUnion.core0 hA hscore hH hH0) prog s l hV hp
+
+/-- the extracted horizon satisfies the side conditions -/
+theorem C13_union_horizon_ok : 64 ∣ Gen.UNION_HORIZON ∧ 0 < Gen.UNION_HORIZON
+    ∧ Gen.UNION_HORIZON / 64 = Gen.UNION_HORIZON_NUM_TINYBITSETS := by decide
+
 /-- score path independence of RequiredOptionalScorer (SumCombiner): with an empty cache (every
 move empties it) the score at the current document `d` is `score_req(d) + [d ∈ opt] score_opt(d)`,
 a function of `d` alone, for every state the two children were brought to by whatever calls -/
@@ -169,21 +246,8 @@ end combinators
 
 OPEN (models tied by the correspondence run only; proofs not done):
 
-  theorem C13_intersection_lawful (hA : Lawful A VA WA) :
-      Lawful (Inter.ds A) (Inter.V VA WA) (Inter.W VA WA)
-  -- Inter.V s l : left/right/others valid for ll/lr/los with equal heads (or left exhausted and the
-  --   others valid-or-in-danger), l = ll ∩ lr ∩ ⋂ los.
-  -- Inter.W s t l : the danger zone Intersection::seek_danger itself leaves (left missed `t`, or
-  --   left found and right/other missed); `wseek` is `go_to_first_doc` over children that may be
-  --   in their own danger zone (uses the children's `wdoc`/`wseek`).
-  -- proof plan for `advance`: loop invariant "ll ∩ lr ∩ ⋂ los restricted to ≥ candidate = l.tail",
-  --   progress from `t < b` of the children's `SDPost`, no loss from its upper bound
-  --   `b ≤ next(child)`, which the contract promises for `doc(child) ≤ t` / `t0 ≤ t` — both hold
-  --   because the candidate is never below any child's floor.
-  theorem C13_intersection_count_partial : … (D.count s).1 = l.length
-  -- the state after the dense count is NOT valid for [] (C13_intersection_dense_count_end_counterexample)
-  theorem C13_intersection_order_irrelevant : the abstraction ll ∩ lr ∩ ⋂ los is invariant under
-  --   permutation of the children, hence (given C13_intersection_lawful) so are all observations.
+  (Intersection: proved above as C13_intersection_lawful_partial, everything except the value of
+  the dense count branch; C13_intersection_order_irrelevant proved.)
 
   theorem C13_union_lawful_partial (hA : Lawful A VA WA) (H : Nat) (hH : 0 < H ∧ 64 ∣ H)
       (hroot : seek_danger targets are never below window_start)   -- excludes finding 5
